@@ -45,6 +45,7 @@ def AnnExpr.beq : AnnExpr → AnnExpr → Bool
   | .union as, .union bs => AnnExpr.beqL as bs
   | .bor a a', .bor b b' => AnnExpr.beq a b && AnnExpr.beq a' b'
   | .str a, .str b => AnnExpr.beq a b
+  | .name n, .name m => n == m
   | _, _ => false
 def AnnExpr.beqL : List AnnExpr → List AnnExpr → Bool
   | [], [] => true
@@ -201,7 +202,7 @@ mutual
 /-- arguments of `type[...]` whose `SubclassValue` is a `Ty`: classes, `Any`, `None`, literals and
 unions of those (possibly quoted) -/
 def typArgOk : AnnExpr → Bool
-  | .cls _ => true | .anyT => true | .none => true | .lit _ => true
+  | .cls _ => true | .anyT => true | .none => true | .lit _ => true | .name _ => true
   | .opt e => typArgOk e
   | .union es => typArgOkL es
   | .bor a b => typArgOk a && typArgOk b
@@ -323,21 +324,21 @@ def optResSame : Option Res → Option Res → Bool
   | _, _ => false
 
 /-- the runtime route on `Union[args]` as written, without anything `typing` does to a union -/
-def rtUnionOf (args : List AnnExpr) : Option Res :=
-  (rtEvalL args).map fun (ts, n) => ⟨unite ts, n, false⟩
+def rtUnionOf (look : Lookup) (args : List AnnExpr) : Option Res :=
+  (rtEvalL look args).map fun (ts, n) => ⟨unite ts, n, false⟩
 
 /-- at one union node with (normalised) arguments `args`: does what `typing` does to the union
 (flattening nested unions, dropping `==` arguments, collapsing a single argument) change what the
 runtime route computes? Flattening and collapsing never do (`unite_values` flattens and collapses
 itself); dropping an argument does when pyanalyze's values for the two `==` arguments differ. -/
-def normMatters (args : List AnnExpr) : Bool :=
-  !(optResSame (rtEval false (mkTUnion args)) (rtUnionOf args) &&
-    optResSame (rtEval true (mkTUnion args)) (rtUnionOf args))
+def normMatters (look : Lookup) (args : List AnnExpr) : Bool :=
+  !(optResSame (rtEval look false (mkTUnion args)) (rtUnionOf look args) &&
+    optResSame (rtEval look true (mkTUnion args)) (rtUnionOf look args))
 
 /-- at a `Literal[...]` node: does `typing`'s de-duplication of the arguments change the result?
 (It never does: `unite_values` drops the same duplicates.) -/
-def litMatters (os : List LitObj) : Bool :=
-  !optResSame (rtEval false (.lit (dedupObjs os))) (astEval false (.lit os))
+def litMatters (look : Lookup) (os : List LitObj) : Bool :=
+  !optResSame (rtEval look false (.lit (dedupObjs os))) (astEval look false (.lit os))
 
 mutual
 /-- **R13.typingDedup** (representation only). Defined node by node and semantically: at some
@@ -350,28 +351,28 @@ different orders (`Union[List[int | str], List[str | int]]`: `typing` keeps one 
 `unite_values`, which compares hashes, keeps both); flattening, collapsing and `Literal`
 de-duplication are repeated by `unite_values` itself (`plainUnions` is a syntactic sufficient
 condition for the class to be empty, `Proofs/C13.lean : plain_R13`). -/
-def R13_typingDedup : AnnExpr → Bool
-  | .gen _ _ args => R13_typingDedupL args
-  | .tup _ ms => R13_typingDedupL ms
-  | .tupV _ e => R13_typingDedup e
-  | .unpack e => R13_typingDedup e
-  | .star e => R13_typingDedup e
-  | .typ _ e => R13_typingDedup e
-  | .ann e _ => R13_typingDedup e
-  | .final e => R13_typingDedup e
-  | .classVar e => R13_typingDedup e
-  | .opt e => R13_typingDedup e || normMatters [tnorm e, .none]
-  | .union es => R13_typingDedupL es || normMatters (tnormL es)
-  | .bor a b => R13_typingDedup a || R13_typingDedup b || normMatters [tnorm a, tnorm b]
-  | .lit os => litMatters os
+def R13_typingDedup (look : Lookup) : AnnExpr → Bool
+  | .gen _ _ args => R13_typingDedupL look args
+  | .tup _ ms => R13_typingDedupL look ms
+  | .tupV _ e => R13_typingDedup look e
+  | .unpack e => R13_typingDedup look e
+  | .star e => R13_typingDedup look e
+  | .typ _ e => R13_typingDedup look e
+  | .ann e _ => R13_typingDedup look e
+  | .final e => R13_typingDedup look e
+  | .classVar e => R13_typingDedup look e
+  | .opt e => R13_typingDedup look e || normMatters look [tnorm e, .none]
+  | .union es => R13_typingDedupL look es || normMatters look (tnormL es)
+  | .bor a b => R13_typingDedup look a || R13_typingDedup look b || normMatters look [tnorm a, tnorm b]
+  | .lit os => litMatters look os
   | _ => false
-def R13_typingDedupL : List AnnExpr → Bool
+def R13_typingDedupL (look : Lookup) : List AnnExpr → Bool
   | [] => false
-  | e :: es => R13_typingDedup e || R13_typingDedupL es
+  | e :: es => R13_typingDedup look e || R13_typingDedupL look es
 end
 
 mutual
-/-- a purely syntactic sufficient condition for `R13_typingDedup e = false`: `typing` has nothing to
+/-- a purely syntactic sufficient condition for `R13_typingDedup look e = false`: `typing` has nothing to
 do to any union or `Literal` of `e` — every `Literal[...]` has pairwise distinct arguments and every
 `Union[...]` / `|` / `Optional[...]` has (after normalising its arguments) at least two arguments,
 none of them a union, no two of them `==`. -/
@@ -397,38 +398,76 @@ end
 
 /-! ## `inspect.signature` of a def header -/
 
-/-- the annotation object `inspect` reports: the evaluated expression, or — under
+/-- **CPython** evaluating a name of the annotation expression when the `def` statement is executed:
+the module globals bound so far, then the builtins (else `NameError`: the module cannot be
+imported; such headers are outside `DefArgs.Supported`). -/
+def pyLookup (env : NameEnv) : Lookup := fun n =>
+  match env.early.get n with
+  | some t => some t
+  | none => env.builtins.get n
+
+mutual
+/-- the names of the expression outside string constants (the ones evaluating the expression looks up) -/
+def AnnExpr.outerNames : AnnExpr → List Nat
+  | .name n => [n]
+  | .gen _ _ args => AnnExpr.outerNamesL args
+  | .tup _ ms => AnnExpr.outerNamesL ms
+  | .tupV _ e => e.outerNames
+  | .unpack e => e.outerNames
+  | .star e => e.outerNames
+  | .typ _ e => e.outerNames
+  | .ann e _ => e.outerNames
+  | .final e => e.outerNames
+  | .classVar e => e.outerNames
+  | .opt e => e.outerNames
+  | .union es => AnnExpr.outerNamesL es
+  | .bor a b => a.outerNames ++ b.outerNames
+  | _ => []
+def AnnExpr.outerNamesL : List AnnExpr → List Nat
+  | [] => []
+  | e :: es => e.outerNames ++ AnnExpr.outerNamesL es
+end
+
+/-- every name the expression looks up when it is evaluated is bound to the same object when the
+`def` statement runs (what CPython puts into `__annotations__`) and when the module has been
+executed (what the visitor's module scope holds): it is not (re)bound after the `def`. -/
+def stableNames (env : NameEnv) (e : AnnExpr) : Bool :=
+  e.outerNames.all fun n => decide (pyLookup env n = visLookup env n)
+
+/-- the annotation object `inspect` reports: the evaluated expression (names replaced by the objects
+they were bound to at that moment, then whatever `typing` does), or — under
 `from __future__ import annotations` — the source text -/
-def annObject (future : Bool) (a : AnnExpr) : AnnExpr := if future then .str a else tnorm a
+def annObject (env : NameEnv) (future : Bool) (a : AnnExpr) : AnnExpr :=
+  if future then .str a else tnorm (resolveV (pyLookup env) a)
 
 /-- default of the `i`-th positional parameter (CPython: `defaults[i - (pos_count - len(defaults))]`) -/
 def posDefault (nPos : Nat) (defaults : List Dflt) (i : Nat) : Option Dflt :=
   if i < nPos - defaults.length then none else defaults[i - (nPos - defaults.length)]?
 
-def inspPositional (future : Bool) (nPos nPosOnly : Nat) (defaults : List Dflt) :
+def inspPositional (env : NameEnv) (future : Bool) (nPos nPosOnly : Nat) (defaults : List Dflt) :
     Nat → List PArg → List IParam
   | _, [] => []
   | i, a :: as =>
     ⟨a.name, if i < nPosOnly then .posOnly else .posOrKw, posDefault nPos defaults i,
-      a.ann.map (annObject future)⟩ :: inspPositional future nPos nPosOnly defaults (i + 1) as
+      a.ann.map (annObject env future)⟩ :: inspPositional env future nPos nPosOnly defaults (i + 1) as
 
-def inspKwonly (future : Bool) : List PArg → List (Option Dflt) → List IParam
+def inspKwonly (env : NameEnv) (future : Bool) : List PArg → List (Option Dflt) → List IParam
   | [], _ => []
-  | a :: as, ds => ⟨a.name, .kwOnly, (ds.headD none), a.ann.map (annObject future)⟩ :: inspKwonly future as ds.tail
+  | a :: as, ds => ⟨a.name, .kwOnly, (ds.headD none), a.ann.map (annObject env future)⟩ :: inspKwonly env future as ds.tail
 
 /-- `inspect.signature(f)` for `def f(<d>)` (CPython `inspect._signature_from_function`). -/
-def inspectOf (d : DefArgs) : ISig :=
+def inspectOf (env : NameEnv) (d : DefArgs) : ISig :=
   let pos := d.posonly ++ d.args
   { params :=
-      inspPositional d.future pos.length d.posonly.length d.defaults 0 pos ++
+      inspPositional env d.future pos.length d.posonly.length d.defaults 0 pos ++
       (match d.vararg with
-        | some a => [⟨a.name, .varPos, none, a.ann.map (annObject d.future)⟩]
+        | some a => [⟨a.name, .varPos, none, a.ann.map (annObject env d.future)⟩]
         | none => []) ++
-      inspKwonly d.future d.kwonly d.kwDefaults ++
+      inspKwonly env d.future d.kwonly d.kwDefaults ++
       (match d.kwarg with
-        | some a => [⟨a.name, .varKw, none, a.ann.map (annObject d.future)⟩]
+        | some a => [⟨a.name, .varKw, none, a.ann.map (annObject env d.future)⟩]
         | none => []),
-    returns := d.returns.map (annObject d.future),
+    returns := d.returns.map (annObject env d.future),
     methodOf := d.methodOf }
 
 /-! ## header-level classes -/
@@ -446,7 +485,7 @@ def DefArgs.WF (d : DefArgs) : Bool :=
 `dict[str, Any]`, the inspect route plain `Any` (arg_spec.py:574 returns before
 `translate_vararg_type`). -/
 def R13_unannotated (d : DefArgs) : Bool :=
-  (inspectOf d).params.any fun p => p.ann.isNone && (p.dflt.isSome || p.kind == .varPos || p.kind == .varKw)
+  (inspectOf default d).params.any fun p => p.ann.isNone && (p.dflt.isSome || p.kind == .varPos || p.kind == .varKw)
 
 /-- what the property compares of a default: presence, and the literal if it is one -/
 def DVal.erase : DVal → Option Obj
@@ -468,6 +507,13 @@ def PArg.annAll (p : AnnExpr → Bool) (a : PArg) : Bool :=
 
 def DefArgs.annAll (d : DefArgs) (p : AnnExpr → Bool) : Bool :=
   d.allArgs.all (PArg.annAll p) && (match d.returns with | some e => p e | none => true)
+
+/-- **D13.reboundName**: without `from __future__ import annotations`, an annotation looks up
+(outside strings) a name that the module binds differently — or only — after the `def` statement:
+the function object carries the object the name was bound to when the `def` ran, the visitor
+evaluates the expression in the module's final scope (`K = A; def f(x: K): ...; K = B`). -/
+def D13_reboundName (env : NameEnv) (d : DefArgs) : Bool :=
+  !d.future && !d.annAll (stableNames env)
 
 def isUnpackTop : AnnExpr → Bool
   | .unpack _ => true
